@@ -48,8 +48,6 @@ def _run_chunk(harness, header, execs, wd, tag, timeout, env, extra_args):
                     groups.append(cur)
                 cur = [ln]
             elif cur is not None:
-                if ln.startswith('{"op":"end"') and rc == 0:
-                    continue
                 cur.append(ln)
         if cur is not None:
             groups.append(cur)
@@ -114,7 +112,7 @@ def validate_pairs(chk, pairs, module, cfg, nproc=None, tlc_env=None, tag="v"):
         with open(tp, "w") as f:
             for p in chunk:
                 f.write("\n".join(p[1]) + "\n")
-        acc, rej, n = vlib.validate_executions(module, cfg, tp, chk.wd, env=tlc_env, max_rejects=2)
+        acc, rej, n = vlib.validate_executions(module, cfg, tp, chk.wd, env=tlc_env, max_rejects=int(os.environ.get('VERIF_MAXREJ', '2')))
         out = []
         for (idx, line_in_exec, _evlines) in rej:
             lines, evs = chunk[idx][0], chunk[idx][1]
@@ -194,6 +192,16 @@ class Campaign:
             r.harness = harness
             self.rejections.append((header, r, origin))
         self.chk.lap("validated %d events, %d executions accepted, %d rejected" % (nev, acc, len(rej)))
+        if os.environ.get("VERIF_VERBOSE"):
+            sigs = {}
+            for (pair, r) in rej:
+                ev = r.failing_event()
+                line = r.lines[r.event_index] if r.event_index < len(r.lines) else "?"
+                k = (pair[2][1], r.why, " ".join(line.split()[:1] + line.split()[2:3]) if r.why != "rejected" else ev.get("op"),
+                     ev.get("what"), ev.get("exc"), ev.get("msg", "")[:60])
+                sigs[k] = sigs.get(k, 0) + 1
+            for k, v in sorted(sigs.items(), key=lambda x: -x[1]):
+                print("      %3d x %s" % (v, k), flush=True)
         self.pending = []
 
     def report(self, known=None, describe=None):
@@ -239,3 +247,28 @@ def replay_file(chk, harness, path, module, cfg, header_words, env=None, tlc_env
         return 1
     print("replay: accepted (%d events)" % nev)
     return 0
+
+
+def run_pinned(chk, harnesses, only_ids=None):
+    """Open findings of this property: run each one's pinned script.  Still failing in the recorded way ->
+    KNOWN-FINDING line (exit status unaffected); failing differently -> VIOLATION; passing -> note only."""
+    for f in vlib.open_findings(chk.pid):
+        pin = f.get("pinned")
+        if not pin or (only_ids and f["id"] not in only_ids):
+            continue
+        harness = harnesses[pin["harness"]]
+        acc, rejs, nev = run_and_validate(chk, harness, pin["header"], [pin["script"]], pin["module"], pin["cfg"],
+                                          nproc=1, tag="pin_" + f["id"].replace("-", "_"))
+        if not rejs:
+            chk.notes.append("open finding %s no longer reproduces" % f["id"])
+            print("NOTE property=%s finding %s no longer reproduces (pinned script accepted)" % (chk.pid, f["id"]), flush=True)
+            continue
+        r = rejs[0]
+        ev = r.failing_event()
+        exp = pin.get("expect", {})
+        same = all(ev.get(k) == v for k, v in exp.items()) and (pin.get("why", r.why) == r.why)
+        if same:
+            chk.known(f["id"], f["what"])
+        else:
+            chk.violation("pinned script of %s fails differently: %s at event %d %s" % (f["id"], r.why, r.event_index, json.dumps(ev)[:300]),
+                          "\n".join(pin["header"] + pin["script"]))
